@@ -510,8 +510,10 @@ func runC16(c *eng.Ctx) {
 		paths := [][]string{{"a"}, {"a", "b"}, {"a", "0", "c"}, {"a", "b c"}, {"a/b", "é"}, {"a", "x.y", ""},
 			// identifiers that start with (or are) a keyword must stay identifiers
 			{"a", "x~1y"}, {"~0", "~1", "a~01"}, {"a", "b/c", "d~e"}, {"a", "k/"}, {"k~", "a"}, {"/", "~"}, {"~k", "/k", "~~"},
-			{"notes"}, {"android", "order"}, {"inside", "isempty", "0"}, {"anyone", "allow"}, {"ask", "matchesx"}, {"containsx", "emptyx", "nota"}}
-		litsF1 := []string{"1", "-1.5", "abc", "a b", "", "/a/b", "a.b", "true", "0x1f", "é\"", "`", "nothing", "ore", "andy", "a.0", "notes.b.1", "x/y"}
+			{"notes"}, {"android", "order"}, {"inside", "isempty", "0"}, {"anyone", "allow"}, {"ask", "matchesx"}, {"containsx", "emptyx", "nota"},
+			// all-digit parts are TEXT (map keys as well as indexes): zero-padded ones and ones beyond every integer width print and parse back unchanged
+			{"m", "007"}, {"a", "00", "b"}, {"a", "010"}, {"m", "9223372036854775808"}, {"m", "18446744073709551616", "0"}, {"a", "0x1"}, {"a", "-1"}, {"a", "1e3"}, {"a", "1.0"}}
+		litsF1 := []string{"1", "-1.5", "abc", "a b", "", "/a/b", "a.b", "true", "0x1f", "é\"", "`", "nothing", "ore", "andy", "a.0", "notes.b.1", "x/y", "v1.05", "a.007.b", "a.18446744073709551616", "007", "1.050", "-0"}
 		for op := 0; op < 8; op++ {
 			for _, path := range paths {
 				for _, lit := range litsF1 {
